@@ -380,6 +380,11 @@ class Interp(container.ContainerInterp):
                     self.refused_on_copy("unsupported-format-without-items", "add_block", lambda w: w.add_block(degenerate_bad_format_block(name)))
                     if name in container.SETTERS:
                         self.refused_on_copy("unsupported-format-without-items", "setter", lambda w: setattr(w, container.SETTERS[name], degenerate_bad_format_block(name)))
+            # 10b. a convenience setter handed a valid block of ANOTHER type that is also in the file: stored or refused - but cleanly
+            for sname in [n for n in live_writable if n in container.SETTERS][:2]:
+                for other in [n for n in live_writable if n != sname][:2]:
+                    self.refused_on_copy("setter-given-another-type", "setter",
+                                         lambda w, sname=sname, other=other: setattr(w, container.SETTERS[sname], specs.build(container_min(other))))
             # 11. a write session in which every call was refused: closing it leaves the file as it was when the session began
             self.session_of_refusals(seed)
 
